@@ -1,6 +1,6 @@
 (* Run/Exec_C14.v — executable entry point of the C14 and C16 correspondence checks.
    run op args = "<implementation model output>|<specification output>|<known-finding class or ->" *)
-From BSV Require Import Base.Hex Model.Opcodes Model.Script Model.Interp Spec.ScriptTok Spec.InterpBSV.
+From BSV Require Import Base.Hex Model.Opcodes Model.Script Model.Asm Model.Interp Spec.ScriptTok Spec.InterpBSV.
 
 (* Interpreter::from_script never carries a transaction *)
 Definition notx : Type := Empty_set.
@@ -344,6 +344,18 @@ Definition run (op : string) (args : list string) : string :=
       match expand u, expand l, N_of_dec64 n with
       | Some ub, Some lb, Some idx => out3 (impl_txrun ub lb idx) (spec_step_vs_run +++ "~ERR") "-"
       | _, _, _ => "BADARG"
+      end
+  | "interp.step_vs_runasm", [a] =>
+      match expand a with
+      | Some bs =>
+          if forallb (fun b => (b2n b <? 128)%N) bs then
+            match from_asm (string_of_bytes bs) with
+            | Ok bits => out3 (impl_step_vs_run bits) spec_step_vs_run "-"
+            | Err => "ERR|ERR|-"
+            | Panic => "PANIC|ERR|-"
+            end
+          else "BADARG"
+      | None => "BADARG"
       end
   | "interp.hist", [a; k] =>
       match N_of_dec k with
